@@ -40,14 +40,20 @@ def load_ref():
                 for t in head[1:]:
                     k, v = t.split('=')
                     names[k] = v.split('|')
-                flags = set(x for x in parts[1:] if not x.startswith('ops '))
+                flags = set(x for x in parts[1:] if not x.startswith('ops ') and not x.startswith('mem '))
+                memd = {}
+                for x in parts[1:]:
+                    if x.startswith('mem '):
+                        for t in x.split()[1:]:
+                            k, v = t.split('=')
+                            memd[k] = v
                 opsd = {}
                 for x in parts[1:]:
                     if x.startswith('ops '):
                         for t in x.split()[1:]:
                             k, v = t.split('=')
                             opsd[k] = [alt.split(',') for alt in v.split('|')]
-                ent = {'kind': 'sse', 'names': names, 'flags': flags, 'ops': opsd, 'line': ln, 'text': line}
+                ent = {'kind': 'sse', 'names': names, 'flags': flags, 'ops': opsd, 'mem': memd, 'line': ln, 'text': line}
             else:
                 names = head[0].split('|')
                 sigtxt = right[len(head[0]):].strip()
@@ -774,6 +780,19 @@ def run(ctx, report):
                 if r_seg != r:
                     R5.violation(inst + ':seg', 'ssefile:prefix-sensitive:%s' % pk, 'with an additional segment prefix (64) the decoder selects %s for %s prefix %s instead of %s: the selection compares the '
                                  'whole prefix list instead of the mandatory prefix' % (r_seg, kstr, pk, r), where(arch, chain), witness='64 f3 0f 7e 00 renders movq DWORD PTR fs:[eax], eax')
+                # width of the memory form, as the rendering shows it (an mm-sized operand is printed without size keyword: not compared)
+                wref = ent['mem'].get(pk)
+                if not digit and wref and wref.isdigit():
+                    szs = X.dis_operand_sizes(c.name, c.modifs, c.row.rm, c.opc, c.row.afs, True, opm, adm, PBYTES[pk])
+                    if isinstance(szs, tuple):
+                        bits = {X.afs.u08: 8, X.afs.u16: 16, X.afs.u32: 32, X.afs.f32: 32, X.afs.f64: 64, X.afs.xmm: 128}.get(szs[1])
+                        if bits is None:
+                            R5.ok(inst + ':mem-width', nontrivial=False)
+                        elif bits == int(wref):
+                            R5.ok(inst + ':mem-width', sample='%s %s: m%d' % (kstr, npname, bits), nontrivial=(len(R5.nontrivial) < 600))
+                        else:
+                            R5.violation(inst + ':mem-width', 'ssemem:%s:%s:%d' % (kstr, pk, bits), 'the memory operand of %s (%s, prefix %s) is rendered with %d bits; IA-32: m%s (ref line %d)'
+                                         % (npname, kstr, pk, bits, wref, ent['line']), where(arch, c.row.node), witness="dis(0f c4 00 11) printed 'pinsrw mm0, DWORD PTR [eax], 17'")
                 if sig_ok(msig, want):
                     R5.ok(inst, sample='%s %s: %s' % (kstr, npname, ','.join(msig)))
                 else:
@@ -892,6 +911,8 @@ def run(ctx, report):
 
 
 MUTANTS = [
+    ('pinsrw-mem-dword', 'miasmx/arch/ia32_arch.py', "    '#p#insrb':   x86_afs.u08, '#p#insrw':   x86_afs.u16,", "    '#p#insrb':   x86_afs.u08,", 'C01.D5'),
+    ('movddup-m128', 'miasmx/arch/ia32_arch.py', "                                    or sse_prefix == [0xF2]: # (movddup)", "                                    or False:", 'C01.D5'),
     ('pushaw-not-renamed', 'miasmx/arch/ia32_arch.py', "                'pushad': x86mndb.pushaw_m, 'popad': x86mndb.popaw_m,\n", "                'popad': x86mndb.popaw_m,\n", 'C01.D10'),
     ('ins-unsized', 'miasmx/arch/ia32_arch.py', 'addop("insd",  [0x6D],', 'addop("ins",   [0x6D],', 'C01.D1'),
     ('mem16-digit-dropped', 'miasmx/arch/ia32_arch.py', "                if m.name in mnemo_mem16 and modr[x86_afs.ad]:\n                    mnemo_args[-1][x86_afs.size] = x86_afs.u16\n", "", 'C01.D1'),
